@@ -36,7 +36,7 @@ pub fn run_real(real: &mut Real, m0: &M, horizon: usize) -> Result<(M, Vec<Probe
     let Real { iset, icache } = real;
     let r = guarded(|| {
         let mut st = build(m0);
-        pushr::push::graph::verif_set_node_counter(refmodel::NEXT_NODE_ID);
+        pushr::push::graph::verif_set_node_counter(refmodel::next_node_id());
         pushr::push::verif::install_clock(0);
         pushr::push::verif::install_script(vec![], 100_000);
         let mut steps = 0;
